@@ -225,11 +225,32 @@ def _native(testfile, testfn, tag):
     return run
 
 
+def _native_errors(model, fnd, prop):
+    """store-fault replays of the session: broken store during the first half of the data, each single xorb put failing in turn,
+    a failing put that completes before a successful one, and each shard upload of a multi-shard session failing in turn"""
+    env = base_env()
+    env["CARGO_TARGET_DIR"] = os.path.join(BUILD, "replay_target")
+    tests = ["c16_xorb_put_failure_reported", "c16_late_fault_completes_first", "c16_shard_put_failure_in_turn"]
+    cmd = ["cargo", "test", "--offline", "--no-fail-fast"] + [x for t in tests for x in ("--test", t)]
+    rc, out = sh(cmd, cwd=os.path.join(VERIF, "replay"), env=env, timeout=2400, log=os.path.join(LOGS, "replay_c16_errors.log"))
+    path = os.path.join(VERIF, "replay", "tests", tests[0] + ".rs")
+    if "test result: FAILED" in out:
+        if re.search(r"a_failed_upload_that_completes_before_a_successful_one_is_reported \.\.\. FAILED", out):
+            path = os.path.join(VERIF, "replay", "tests", tests[1] + ".rs")
+        elif re.search(r"each_single_shard_upload_failure_is_reported \.\.\. FAILED", out):
+            path = os.path.join(VERIF, "replay", "tests", tests[2] + ".rs")
+        m = re.search(r"C16 violated: [^\n]*", out)
+        return True, path, m.group(0)[:240] if m else "native replay fails"
+    if len(re.findall(r"test result: ok\. [1-9]\d* passed", out)) == len(tests):
+        return False, path, "native replays pass: every injected xorb / shard upload failure is reported by some session call"
+    return None, path, "native replay inconclusive (rc=%s)" % rc
+
+
 _F = ["data::file_upload_session::FileUploadSession::{finalize_impl, register_new_xorb_for_upload (+ upload task), process_aggregated_data_as_xorb, register_single_file_clean_completion}",
       "data::deduplication_interface::UploadSessionDataManager::register_new_xorb",
       "data::shard_interface::SessionShardInterface::upload_and_register_session_shards (+ shard upload task)"]
 SMT = [Q("c16_order_and_errors", "upload ordering and error propagation of the session", "data", build, functions=_F, bounds="all CFG paths",
-         solvers=("z3", "cvc5-bv"), replay=_native("c16_xorb_put_failure_reported", None, "C16")),
+         solvers=("z3", "cvc5-bv"), replay=_native_errors),
        Q("c16_dry_run", "a dry run sends nothing to the store and leaves nothing in the shard cache (Mode B)", "data", build_dry_run,
          functions=["data::shard_interface::SessionShardInterface::upload_and_register_session_shards (spawned task)"], bounds="all CFG paths", solvers=("z3", "cvc5-bv"),
          replay=native_test("c16_dry_run_native", "C16 violated", "native replay passes: a dry run leaves no shard behind and is not deduplicated against")),
